@@ -90,6 +90,16 @@ fn main() {
             Tier::Thorough => 90 * 60,
         }),
     };
+    // hard wall-clock watchdog: a history that never returns is inconclusive, never a violation
+    {
+        let limit = cfg.watchdog + Duration::from_secs(120);
+        let prop = prop.clone();
+        std::thread::spawn(move || {
+            std::thread::sleep(limit);
+            println!("INCONCLUSIVE property={prop} reason=hard wall-clock watchdog fired (a history did not return)");
+            std::process::exit(2);
+        });
+    }
     let (out, wall) = run_monitor(m.as_ref(), &cfg);
     let code = finish(m.as_ref(), &cfg, out, wall, &root);
     std::process::exit(code);
